@@ -98,7 +98,9 @@ Deduced(f) ==      \* the term for the deduced template argument
          [] f = "const volatile T&" -> [base EXCEPT !.ref = "lref", !.c = TRUE, !.v = TRUE]
 Factories == {"closure", "const_closure", "closure_pointer", "const_closure_pointer",
               "proxy_wrapper", "masked_value", "optional", "rvalue_accessor", "lvalue_accessor",
-              "forward_same", "forward_diff", "pointer_deref", "pointer_arrow", "address_of"}
+              "forward_same", "forward_diff", "pointer_deref", "pointer_arrow", "address_of",
+              "const_lvalue_accessor", "const_rvalue_accessor",
+              "conversion_lv", "conversion_clv", "conversion_rv", "conversion_crv"}
 VolFactories == {"closure", "const_closure", "closure_pointer", "const_closure_pointer", "proxy_wrapper"}
 (* the closure type argument(s) of the wrapper the factory returns for source form f *)
 FactoryCT(fac, f) ==
@@ -114,6 +116,30 @@ FactoryCT(fac, f) ==
       [] fac = "rvalue_accessor"  -> UNION {IF ct.ref = "lref" THEN {ct}
                                             ELSE {Decay(ct), ct}
                                             : ct \in ClosureType(Deduced(f))}
+      (* round 4: the value category of the WRAPPER is an axis of its own (lvalue, const lvalue, rvalue, const     *)
+      (* rvalue).  Constness of the wrapper is never constness lost: through a const wrapper an owned value is     *)
+      (* only ever seen as const; a reference closure keeps designating its referent and may (deep const) or may   *)
+      (* not (shallow const, as std::reference_wrapper) add const to it -- the statement leaves that open -- but   *)
+      (* never drops the referent's own const.                                                                     *)
+      [] fac = "const_lvalue_accessor" -> UNION {IF ct.ref = "lref" THEN {ct, WithConst(ct)}
+                                                 ELSE {LRef(WithConst(ct))}
+                                                 : ct \in ClosureType(Deduced(f))}
+      (* a const rvalue wrapper: by value, or (the idiom of std::optional::value() const&&) a reference to const;  *)
+      (* never a reference to non-const into the dying wrapper                                                     *)
+      [] fac = "const_rvalue_accessor" -> UNION {IF ct.ref = "lref" THEN {ct, WithConst(ct)}
+                                                 ELSE {Decay(ct), WithConst(Decay(ct)), LRef(WithConst(ct)), [WithConst(ct) EXCEPT !.ref = "rref"]}
+                                                 : ct \in ClosureType(Deduced(f))}
+      (* the implicit conversion of a closure wrapper to its closure: the type of the conversion's result.  A     *)
+      (* reference closure converts to a reference to the referent in every category of the wrapper (const kept); *)
+      (* an owning wrapper converts to a value -- from an lvalue wrapper a reference to its storage would also be *)
+      (* sound (as get()), from an rvalue wrapper only a value is ("stays valid after the temporary is gone")     *)
+      [] fac \in {"conversion_lv", "conversion_clv", "conversion_rv", "conversion_crv"} ->
+             UNION {IF ct.ref = "lref" THEN {ct, WithConst(ct)}
+                    ELSE {Decay(ct), WithConst(Decay(ct))}
+                         \cup (IF fac = "conversion_lv" THEN {LRef(ct)} ELSE {})
+                         \cup (IF fac = "conversion_clv" THEN {LRef(WithConst(ct))} ELSE {})
+                         \cup (IF fac = "conversion_crv" THEN {LRef(WithConst(ct)), [WithConst(ct) EXCEPT !.ref = "rref"]} ELSE {})
+                    : ct \in ClosureType(Deduced(f))}
       (* a closure pointer p made from source form f: *p and *(p.operator->()) are the designated object;       *)
       (* &w for a closure wrapper w made from f is pointer-like: *(&w) is the designated object.  The row      *)
       (* gives the type of that lvalue (the statement does not fix the pointer-like type itself)               *)
@@ -192,4 +218,20 @@ ConstifyLaws ==
 FactoryLaws ==
     frow.map \in {"closure", "const_closure", "closure_pointer", "const_closure_pointer", "optional"} =>
        \A r \in frow.allowed : (r.ref = "lref") = (frow.form \in {"T&", "const T&"} \cup VolForms) /\ r.ref # "rref"
+(* round 4: whatever the value category of the wrapper, an accessor or conversion (a) designates/copies an object of *)
+(* the decayed source type, (b) never drops the const of a const source, (c) on a const wrapper never hands out a    *)
+(* reference to non-const to a value the wrapper owns, (d) on an rvalue (non-const) wrapper never hands out any      *)
+(* reference to a value the wrapper owns                                                                            *)
+AccessorFacs == {"lvalue_accessor", "rvalue_accessor", "const_lvalue_accessor", "const_rvalue_accessor",
+                 "conversion_lv", "conversion_clv", "conversion_rv", "conversion_crv"}
+AccessorLaws ==
+    frow.map \in AccessorFacs =>
+       LET lvsrc == frow.form \in {"T&", "const T&"}
+           csrc  == frow.form \in {"const T&"}
+       IN \A r \in frow.allowed :
+            /\ Decay(r) = Decay(Deduced(frow.form))
+            /\ (lvsrc /\ csrc) => (r.ref # "none" /\ r.c)
+            /\ lvsrc => r.ref = "lref"
+            /\ (~lvsrc /\ frow.map \in {"const_lvalue_accessor", "const_rvalue_accessor", "conversion_clv", "conversion_crv"} /\ r.ref # "none") => r.c
+            /\ (~lvsrc /\ frow.map \in {"rvalue_accessor", "conversion_rv"}) => r.ref = "none"
 =============================================================================
